@@ -18,15 +18,18 @@ FlagOf(v) == CASE v.t = "dir" -> "5"
 \* mtime "to the second": the archive may hold the floor or the nearest second
 SecOK(msec, vsec) == msec = vsec \/ msec = vsec + 1
 
+\* a device node or fifo that the view reports as a later member of an inode group may be written as a link member
+\* (the statement names "hard links as link members" without restricting the type) or as a node of its own
+LinkedSpecial(v) == v.t \in {"fifo", "chr", "blk"} /\ v.hl # <<>>
 MemberMatches(m, v) ==
   /\ m.name = (IF v.t = "dir" THEN v.raw \o <<47>> ELSE v.raw)
-  /\ m.flag = FlagOf(v)
+  /\ (m.flag = FlagOf(v) \/ (LinkedSpecial(v) /\ m.flag = "1" /\ m.ln = v.hl))
   /\ m.perm = v.perm /\ m.uid = v.uid /\ m.gid = v.gid
   /\ SecOK(m.mtsec, v.mtsec)
   /\ m.x = v.x
   /\ (v.t = "symlink" => m.ln = v.lnb)
   /\ (v.t = "file" /\ v.hl # <<>> => m.ln = v.hl)
-  /\ (v.t \in {"chr", "blk"} => m.dev = v.dev)
+  /\ (v.t \in {"chr", "blk"} /\ m.flag # "1" => m.dev = v.dev)
   \* regular files carry exactly their bytes, everything else (links included) has no payload
   /\ (IF v.t = "file" /\ v.hl = <<>> THEN m.size = v.size /\ m.rawSize = v.size /\ m.c = v.c
       ELSE m.size = "0" /\ m.rawSize = "0")
